@@ -163,8 +163,9 @@ pub fn mix_with<const T: usize, const C: usize, O: Ops>(mut s: [u128; T], mut l:
         a = o.rotl(o.add(o.add(s[i], a), b), 3);
         s[i] = a;
         // "(L[j] + A + B) <<< (A + B)": the sum is read left to right, the rotation count is A + B
+        let sum = o.add(o.add(l[j], a), b);
         let ab = o.add(a, b);
-        b = o.rotl(o.add(o.add(l[j], a), b), ab);
+        b = o.rotl(sum, ab);
         l[j] = b;
         i = (i + 1) % T;
         j = (j + 1) % C;
@@ -177,7 +178,10 @@ pub fn expand_key<const T: usize, const C: usize>(w: u32, key: &[u8]) -> [u128; 
     mix::<T, C>(w, init_table::<T>(w), key_to_words::<C>(w, key))
 }
 pub fn expand_key_with<const T: usize, const C: usize, O: Ops>(w: u32, key: &[u8], o: O) -> [u128; T] {
-    mix_with::<T, C, O>(init_table_with::<T, O>(w, o), key_to_words_with::<C, O>(w, key, o), o)
+    // steps in the paper's order: 1 (bytes to words), 2 (initialise S), 3 (mix)
+    let l = key_to_words_with::<C, O>(w, key, o);
+    let s = init_table_with::<T, O>(w, o);
+    mix_with::<T, C, O>(s, l, o)
 }
 
 /// A = A + S[0]; B = B + S[1]; for i = 1..r: A = ((A ^ B) <<< B) + S[2i]; B = ((B ^ A) <<< A) + S[2i+1]
@@ -210,7 +214,10 @@ pub fn decrypt_words_with<const T: usize, O: Ops>(s: &[u128; T], a: u128, b: u12
         a = o.rotr(o.sub(a, s[2 * i]), b) ^ b;
         i -= 1;
     }
-    (o.sub(a, s[0]), o.sub(b, s[1]))
+    // "B = B - S[1]; A = A - S[0]"
+    let b = o.sub(b, s[1]);
+    let a = o.sub(a, s[0]);
+    (a, b)
 }
 
 /// Little-endian word <-> bytes (paper, section 4: "little-endian conventions").
